@@ -13,6 +13,7 @@ Definition kind_of (a : api) : api_kind :=
   | ADecryptInit _ _ => KDecryptInit | AInitProtect _ _ => KInitProtect | ADecryptWith _ _ => KDecryptWith
   | AEncryptWith _ _ => KEncryptWith | AToByteStream _ => KToByteStream | AToNaluSample _ => KToNaluSample
   | ASetBoxDecoder => KSetBoxDecoder | ARemoveBoxDecoder => KRemoveBoxDecoder | ATouch _ => KTouch
+  | ADecodeLazy _ _ => KDecodeLazy | AReadData _ _ _ => KReadData
   end.
 
 (* which Global cell of the table stands for a package-level variable *)
@@ -25,10 +26,10 @@ Definition global_idx (v : vname) : nat :=
 (* the Global cells the table lets an operation read / write (argument-independent part of api_fp) *)
 Definition kind_globals_r (k : api_kind) : list nat :=
   match k with
-  | KDecode => [0; 1; 2; 3]
+  | KDecode | KDecodeLazy => [0; 1; 2; 3]
   | KDecodeSR => [1; 2; 3]
   | KInfo | KEncode | KEncodeSW | KSamples | KEncrypt | KDecrypt | KDecryptInit | KInitProtect
-  | KDecryptWith | KEncryptWith | KTouch => [3]
+  | KDecryptWith | KEncryptWith | KTouch | KReadData => [3]
   | KToByteStream | KToNaluSample => []
   | KSetBoxDecoder | KRemoveBoxDecoder => [0; 1]
   end%nat.
